@@ -17,8 +17,9 @@ type msg[V any] struct {
 }
 
 type Y[V any] struct {
-	resume chan bool // true = continue, false = kill
-	out    chan msg[V]
+	resume  chan bool // true = continue, false = kill
+	out     chan msg[V]
+	exiting bool // the coroutine is being torn down by Goexit (not a panic)
 }
 
 type coro[V any] struct {
@@ -40,6 +41,7 @@ func New[V any](k Killer, body func(y *Y[V])) Iter[V] {
 func (y *Y[V]) Yield(v V) {
 	y.out <- msg[V]{v: v}
 	if !<-y.resume {
+		y.exiting = true
 		runtime.Goexit()
 	}
 }
@@ -51,12 +53,16 @@ func (y *Y[V]) YieldFrom(it Iter[V]) {
 }
 
 func (c *coro[V]) run() {
+	finished := false
 	defer func() {
-		if r := recover(); r != nil {
+		// a completion flag, not recover() != nil: with GODEBUG=panicnil=1 (go < 1.21 modules) panic(nil) recovers as nil
+		r := recover()
+		if !finished && !c.y.exiting {
 			c.y.out <- msg[V]{panicked: true, pv: r}
 		}
 	}()
 	c.body(c.y)
+	finished = true
 	c.y.out <- msg[V]{done: true}
 }
 
